@@ -4,16 +4,24 @@
 // A serializer's state is the sequence of CBOR tokens written so far.  The writer is monomorphised to Vec<u8> (what to_bytes / to_hex /
 // the hash helpers use): std's `impl Write for Vec<u8>` never fails, so every write returns Ok.
 // ---------------------------------------------------------------------------------------------------------
-#[verifier::external_body] pub struct CborError { _p: core::marker::PhantomData<u8> }
+#[verifier::external_body] pub struct IoError { _p: core::marker::PhantomData<u8> }
+#[derive(PartialEq, Eq, Clone, Copy, Structural)]
+pub enum CBORType { UnsignedInteger, NegativeInteger, Bytes, Text, Array, Map, Tag, Special }
+/// cbor_event::Error, as far as the library constructs it (the other variants only travel)
+pub enum CborError { Expected(CBORType, CBORType), CustomError(String), IoError(IoError), Other }
 impl core::fmt::Debug for CborError { #[verifier::external_body] fn fmt(&self, f: &mut core::fmt::Formatter<'_>) -> core::fmt::Result { unimplemented!() } }
+#[derive(PartialEq, Eq, Structural)]
 pub enum CBORSpecial { Bool(bool), Null, Undefined, Break }
 pub mod cbor_event {
     pub enum Len { Indefinite, Len(u64) }
+    pub type Error = super::CborError;
     pub type Result<T> = core::result::Result<T, super::CborError>;
 }
 pub enum Tok {
     Map(u64), MapIndef, Arr(u64), ArrIndef, UInt(u64), NInt(int), Tag(u64), Bytes(Seq<u8>), Text(Seq<char>),
     Special(CBORSpecial), Raw(Seq<u8>),
+    /// (decoder side only) the content bytes of a byte string whose head has already been consumed
+    Payload(Seq<u8>),
 }
 #[verifier::external_body] pub struct Serializer { _p: core::marker::PhantomData<u8> }
 /// the bytes a token sequence denotes (heads as cbor_event writes them: shortest form, cross-checked by Kani)
